@@ -1,6 +1,7 @@
 """C01 — generated data always validates against its own schema."""
 import math
 
+from ..common import safe_repr
 from .. import conforms, gencorr, runner, scripted_random as SR, valcases
 from ..common import d42  # noqa: F401
 from d42 import fake, schema, substitute, validate
@@ -19,9 +20,9 @@ EVIDENCE = dict(
     trusted=["Lean kernel; standard axioms",
              "D42/Gen/Consts.lean regenerated from d42/generation/_consts.py + RegexGenerator defaults on this run",
              "generator model tied to the code by (draw requests, generated value) under scripted draws incl. both ends of every range",
-             "CPython: random.randint/choice/uniform contracts, uuid4() is version 4, Decimal(repr(x)) round-trips"],
+             "CPython: random.randint/choice/uniform contracts, uuid4() is version 4, Decimal(safe_repr(x)) round-trips"],
     rule="hereditarily satisfiable schemas built with a checked witness; each is generated from under draw policies "
-         "lo/hi/alt/alt2/rnd/small and one:<k> (single-position extremes); distinct by repr(schema)+policy; non-trivial = at "
+         "lo/hi/alt/alt2/rnd/small and one:<k> (single-position extremes); distinct by safe_repr(schema)+policy; non-trivial = at "
          "least one random draw was consumed; thorough tier adds EVERY schema of the small scope (small grammar to depth 2, 5.2k schemas) under four draw policies")
 
 
@@ -31,19 +32,19 @@ def one_policies(n_requests, limit):
 
 def oracle_case(ctx, s, w, pol, kind, v, log):
     nreq = sum(1 for e in log if e[0] != "seed")
-    ctx.case((repr(s), pol), nreq > 0)
+    ctx.case((safe_repr(s), pol), nreq > 0)
     ctx.count("policy:" + pol.split(":")[0])
-    info = dict(schema=repr(s), policy=pol, draws=[e for e in log][:40], py_schema=s, witness=repr(w))
+    info = dict(schema=safe_repr(s), policy=pol, draws=[e for e in log][:40], py_schema=s, witness=safe_repr(w))
     if kind == "exc":
-        ctx.violation("fake raised %s on a satisfiable schema" % type(v).__name__, exception=repr(v), **info)
+        ctx.violation("fake raised %s on a satisfiable schema" % type(v).__name__, exception=safe_repr(v), **info)
         return
     try:
         errs = validate(s, v).get_errors()
     except Exception as e:  # noqa: BLE001
-        ctx.violation("validate raised on a generated value", value=repr(v), exception=repr(e), **info)
+        ctx.violation("validate raised on a generated value", value=safe_repr(v), exception=safe_repr(e), **info)
         return
     if errs:
-        ctx.violation("fake returned a value its own schema rejects", value=repr(v), errors=[repr(e) for e in errs[:4]],
+        ctx.violation("fake returned a value its own schema rejects", value=safe_repr(v), errors=[safe_repr(e) for e in errs[:4]],
                       py_value=v, **info)
 
 
@@ -56,12 +57,12 @@ def chain_built(ctx):
     from .C11 import UNIVERSE
     cands = {"str": ["", "a", "b", "ab", "ba", "abc", "z", "zz", "aab", "abz", "{}", "a{b}", "%s", "aaa", "abcabc", "xabcx"],
              "int": [0, 1, 3, 4, 5, -1, 2 ** 63 + 1, 2 ** 64, 10 ** 30, -2 ** 70],
-             "float": [0.0, 0.1, 0.15, 0.2, 1.5, 2.0, 3.14, 3.14159, 1e19, 2e19, -1e19, -2e19, 1e300],
+             "float": [0.0, 0.1, 0.15, 0.2, 0.3, 0.1 + 0.2, 1.5, 1.5 + 1e-12, 2.0, 3.14, 3.14159, 1e19, 2e19, -1e19, -2e19, 1e300],
              "list": [[], [1], [1, "a"], [1, 2], [1, 2, 3], ["a", "b", "c"], [1, "a", 2, 3, 4]]}
     out = []
     for key, u in UNIVERSE.items():
         facade = u.get("facade", key)
-        for value in u["values"][:3]:
+        for value in (u["values"][:3] + ([0.3] if facade == "float" else [])):
             combos = list(itertools.permutations(u["ops"], 2))
             if not ctx.quick():
                 combos += ctx.rnd.sample(list(itertools.permutations(u["ops"], 3)), 300)
@@ -206,7 +207,7 @@ def run(ctx):
     dis = gencorr.compare(cases, ctx)
     for c, detail in dis[:10]:
         ctx.breakage("correspondence", "generator view (requests, value) differs between model and code",
-                     schema=repr(c.schema), policy=c.policy, detail=detail, request=c.req)
+                     schema=safe_repr(c.schema), policy=c.policy, detail=detail, request=c.req)
     ctx.cov["corr_disagreements"] = len(dis)
     if not ctx.quick():
         # thorough: every schema of the small scope under four draw policies
@@ -217,7 +218,7 @@ def run(ctx):
                 oracle_case(ctx, c.schema, None, c.policy, c.kind, c.value, c.log)
         smallscope.gen_scope(ctx, oracle=scope_oracle)
     for c in cases[:300:60]:
-        ctx.sample({"schema": repr(c.schema), "policy": c.policy, "value": repr(c.value)[:300],
+        ctx.sample({"schema": safe_repr(c.schema), "policy": c.policy, "value": safe_repr(c.value)[:300],
                     "requests": [e[:3] for e in c.log][:12]})
 
 
